@@ -262,13 +262,6 @@ type propFn func(o *Out, r *Rng, n int, thorough bool)
 
 var props = map[string]propFn{}
 
-func init() {
-	if os.Getenv("RDM_VERIF") == "" {
-		return
-	}
-	os.Exit(verifMain(os.Args[1:]))
-}
-
 // usage: <binary> gen <prop> <tier> <seed> <n> <workdir>   |   <binary> serve (stdio request loop)
 func verifMain(args []string) int {
 	if len(args) >= 1 && args[0] == "serve" {
